@@ -15,7 +15,9 @@ import (
 //
 // Files: c12.go (registration, rules), c12_less.go (finite-domain evaluation of comparators; sortAdapter and
 // parseLessChain, which c11.go also calls), c12_sorted.go ("sorted before it escapes" on the CFG and through
-// helpers), c12_key.go (derivation of the (Index, Version) key), c12_variants.go (sensitivity and robustness suites).
+// helpers), c12_key.go (derivation of the (Index, Version) key), c12_funcval.go (function, struct and table values
+// in the comparator interpreter), c12_adapter.go (sort operands built at the call: struct adapters, function values),
+// c12_storage.go (N4 storage ownership), c12_variants.go / c12_variants5.go (sensitivity and robustness suites).
 //
 // Anchors (exported API or interface methods only): osm.Updates.SortByIndex, osm.Updates.SortByTimestamp,
 // osm.Update{Index,Timestamp,Version}, core.Compute, core.Parent.SetChild, shared.(*Child).Update,
@@ -28,6 +30,8 @@ func init() {
 		Explanation: "Structural necessary conditions, decided on what the code does, not on how it is written (if/switch, early returns, nesting, local copies or pointers, renamed locals, helper functions, sort.Slice instead of an adapter type, loop forms, the file a function lives in). " +
 			"(N1) For every range over a map in the annotate tree: each list declared outside the loop that the body grows by append (directly, or in a function it passes the list to) is, on every path from the end of the loop to a return of that list, completely sorted into its canonical order, and not assigned again before the return. Canonical order of osm.Update lists: Index, then Timestamp, then Version (Updates.SortByIndex, or any sort whose comparator is shown to be that order); of integer/string slices: any strict total order. 'Completely sorted' is a sort call on the list, a loop over all its elements that sorts the current element on every iteration and cannot be left early, or a function that does one of these to its parameter before each of its exits; an unexported function may return the list unsorted if every caller sorts it. " +
 			"(N2) The comparator that SortByIndex hands to sort.Sort/Stable/Slice/SliceStable is interpreted on every combination of relations (<, equal, >; for times also 'same instant, different representation', where == and Equal disagree) between the Index, Timestamp, Version (and any other field it reads) of two elements; the resulting truth table must be the strict lexicographic order Index, Timestamp (as an instant), Version and must never be true in both directions; SortByTimestamp's table must be the strict order on the instant; Len/Swap of an adapter are executed symbolically; the sort is applied to the method's receiver. The key (Index, Version) is shown to occur once per parent: every osm.Update put into a list comes from Child.Update() (which copies the Version of the child it is called on), its Index is set from the location's position field (the field also handed to Parent.SetChild) before any use, and the two innermost loops around each use are one that varies the child version and one that varies the location. " +
+			"The comparator is the one that runs: when the adapter is a struct that holds the slice and the comparator in fields, when sort.Slice receives a closure variable, a declared function or a method value, or when the comparator is picked from a lookup table by a constant, the operand is evaluated where the sort is called and the function value bound there is the one interpreted. " +
+			"(N4) Every list grown by append under a map range owns its storage: whatever is stored into it other than by l = append(l, ...) is nil, a fresh allocation, a re-slice of the list itself, or a three-index slice; a two-index slice of a shared block is reported, because its capacity reaches into the storage of the lists carved after it and append then overwrites them in map-iteration order (the bounds of a three-index slice are not checked). " +
 			"(N3) Every return of Compute that returns lists returns them after a complete sort into the index order (in Compute, or in the function whose result it returns). " +
 			"NOT decided: byte identity of whole results, determinism of user datasources, order effects through Parent.SetChild (each location is written once per child id), NaN in float fields (no comparator reads one), stores into outer slices that are not appends, one update variable appended twice in one statement, function literals (reported as undecided).",
 		Assumptions: []string{"go/types, go/cfg (x/tools v0.29.0)", "sort.Sort is not stable, hence ties must be impossible on the emitted key", "time.Time: Before/After/Equal/Compare/Sub compare instants, == and != compare the representation", "the histories handed to Compute hold each child version once"},
@@ -43,9 +47,10 @@ func init() {
 			{ID: "N1", Floor: 1, Doc: "map-order hygiene: lists grown under a map range are completely sorted into their canonical order (updates: Index, Timestamp, Version) before they escape", Run: c12N1},
 			{ID: "N2", Floor: 14, Doc: "sort comparators, evaluated exhaustively over field relations, are the strict orders Index/Timestamp/Version and Timestamp; (Index, Version) is a key of the emitted lists", Run: c12N2},
 			{ID: "N3", Floor: 1, Doc: "every value return of Compute is dominated by a complete sort of every per-parent update list into the index order", Run: c12N3},
+			{ID: "N4", Floor: 1, Doc: "storage ownership: a list grown by append under a map range never starts as a two-index slice of shared storage (nil, fresh allocation, re-slice of itself or three-index slice only)", Run: c12N4},
 		},
-		Mutants: c12Mutants,
-		Benign:  c12Benign,
+		Mutants: append(append([]core.Mutant{}, c12Mutants...), c12Mutants5...),
+		Benign:  append(append([]core.Mutant{}, c12Benign...), c12Benign5...),
 	})
 }
 
@@ -231,12 +236,17 @@ func c12N2(r *core.R) {
 			continue
 		}
 		so := sorts[0]
-		// the method sorts its receiver (not a copy)
-		c12CheckSortsReceiver(r, pk, fi, so, spec.method)
-
+		c12DynamicAdapter(pk, fi, so)
 		var cmp *c12Cmp
 		var why, c string
-		if so.adapter != nil {
+		if so.adapter != nil && c12IsStruct(so.adapter) {
+			// the adapter is a struct wrapping the slice (and possibly holding the comparator in a field)
+			var ok bool
+			c = "comparator@" + spec.method
+			if cmp, ok = c12StructAdapter(r, pk, fi, so, spec.method, c); !ok {
+				continue
+			}
+		} else if c12CheckSortsReceiver(r, pk, fi, so, spec.method); so.adapter != nil {
 			ad := so.adapter.Obj().Name()
 			c = "comparator@" + spec.method // keyed on the exported method, not on the adapter type that implements it today
 			lessFi := findFunc(pk, ad+".Less")
@@ -427,12 +437,23 @@ func c12CheckLen(r *core.R, pk *packages.Package, lenFi *FuncInfo, c string) {
 }
 
 func c12LenVerdict(pk *packages.Package, lenFi *FuncInfo) (int, string) {
-	cmp, why := c12MethodCmp(pk, lenFi.Decl)
+	return c12LenVerdictOn(pk, lenFi, nil)
+}
+
+// c12LenVerdictOn: recv, if set, is the adapter value (a struct wrapping the slice) Len is called on.
+func c12LenVerdictOn(pk *packages.Package, lenFi *FuncInfo, recv *c12Val) (int, string) {
+	var cmp *c12Cmp
+	why := ""
+	if recv != nil {
+		cmp = &c12Cmp{pk: pk, pos: lenFi.Decl.Pos(), bind: map[types.Object]c12Val{}, entry: &c12FuncVal{fn: lenFi.Obj, recv: recv}}
+	} else {
+		cmp, why = c12MethodCmp(pk, lenFi.Decl)
+	}
 	if why != "" {
 		return c12Unk, "Len not understood: " + why
 	}
 	ru := &c12Run{c: cmp, rel: map[string]c12Rel{}, same: -1}
-	vals, why := ru.fn(cmp.ftype, cmp.body, c12Env{}, 3)
+	vals, why := ru.run(3)
 	switch {
 	case why != "":
 		return c12Unk, "Len not understood: " + why
@@ -459,6 +480,12 @@ func c12CheckSwap(r *core.R, pk *packages.Package, swapFi *FuncInfo, c string) {
 }
 
 func c12SwapVerdict(pk *packages.Package, swapFi *FuncInfo) (int, string) {
+	return c12SwapVerdictOn(pk, swapFi, nil)
+}
+
+// c12SwapVerdictOn: data, if set, lists the fields of the (struct) receiver that hold the sorted slice; otherwise the
+// receiver itself is the slice.
+func c12SwapVerdictOn(pk *packages.Package, swapFi *FuncInfo, data map[*types.Var]bool) (int, string) {
 	info := pk.TypesInfo
 	fd := swapFi.Decl
 	var recv types.Object
@@ -476,13 +503,22 @@ func c12SwapVerdict(pk *packages.Package, swapFi *FuncInfo) (int, string) {
 	}
 	cells := [2]string{"A", "B"}
 	locals := map[types.Object]string{}
+	// isData: expression denotes the sorted slice
+	isData := func(e ast.Expr) bool {
+		e = stripDerefParen(e)
+		if sel, ok := e.(*ast.SelectorExpr); ok {
+			return data != nil && objOf(info, stripDerefParen(sel.X)) == recv && data[fieldOf(info, sel)]
+		}
+		o := objOf(info, e)
+		return o != nil && ((data == nil && o == recv) || locals[o] == "S")
+	}
 	// cellOf: expression denotes cell k
 	var cellOf func(e ast.Expr) int
 	cellOf = func(e ast.Expr) int {
 		e = ast.Unparen(e)
 		switch x := e.(type) {
 		case *ast.IndexExpr:
-			if objOf(info, x.X) == recv {
+			if isData(x.X) {
 				switch objOf(info, x.Index) {
 				case params[0]:
 					return 0
@@ -506,6 +542,9 @@ func c12SwapVerdict(pk *packages.Package, swapFi *FuncInfo) (int, string) {
 		e = ast.Unparen(e)
 		if k := cellOf(e); k >= 0 {
 			return cells[k]
+		}
+		if isData(e) {
+			return "S"
 		}
 		if ue, ok := e.(*ast.UnaryExpr); ok && ue.Op == token.AND {
 			if k := cellOf(ue.X); k >= 0 {
